@@ -21,12 +21,18 @@ package oxsim
 import (
 	"context"
 	"fmt"
+	"math/rand/v2"
+	"runtime"
 	"os"
 	"path/filepath"
 	"sort"
 	"strings"
 	"sync"
+	"sync/atomic"
 	"time"
+
+	"github.com/cockroachdb/pebble"
+	"github.com/cockroachdb/pebble/vfs"
 
 	"github.com/oxia-db/oxia/proto"
 	"github.com/oxia-db/oxia/server"
@@ -45,6 +51,11 @@ type c06 struct {
 	leader  string
 	canon   []*proto.LogEntry // committed entries, in order, as folded into the model
 	cfgMod  func(*server.Config)
+
+	// C07 mode
+	strict  bool                  // Pebble runs on a strict in-memory FS: unsynced engine files are lost at power loss
+	fsByDir map[string]*vfs.MemFS // data dir -> file system of that incarnation
+	prop    string
 }
 
 func (c *c06) dir(n string) string {
@@ -90,9 +101,7 @@ func (c *c06) newTerm(n string) (*proto.EntryId, error) {
 		}
 		if attempt == 0 && strings.Contains(err.Error(), "lock held by current process") {
 			c.r.Count("diag_follower_wedged_after_snapshot", 1)
-			old := c.w.Node(n)
-			c.dirSeq[n]++
-			old.Crash(c.dir(n), false, 4096)
+			c.crashNode(n, false)
 			if !c.start(n) {
 				return nil, err
 			}
@@ -184,6 +193,22 @@ func (c *c06) start(n string) bool {
 		return false
 	}
 	return true
+}
+
+// settleAndFold waits (bounded) until everything in the leader's log is committed, then folds:
+// after requests with an unknown outcome the generator must not work from a stale model.
+func (c *c06) settleAndFold() bool {
+	for i := 0; i < 300; i++ {
+		v := c.wl.c.view()
+		if v == nil {
+			break
+		}
+		if v.HeadOffset == v.CommitOffset && v.Wal != nil && wal.SimLastAppended(v.Wal) == v.CommitOffset {
+			break
+		}
+		time.Sleep(100 * time.Millisecond)
+	}
+	return c.fold()
 }
 
 // fold brings the model up to the leader's commit offset (entries are remembered via onFold).
@@ -283,6 +308,243 @@ func (c *c06) checkpoint(where string, settle bool) {
 	}
 }
 
+
+// dbDir is the engine's data directory of the node's current incarnation.
+func (c *c06) dbDir(n string) string {
+	if c.strict {
+		return filepath.Join(c.w.Root, n+"-db")
+	}
+	return filepath.Join(c.dir(n), "db")
+}
+
+// crashNode kills a node at the current quiescent point and prepares the disk image its next
+// incarnation starts from (WAL image by the disk tracker; engine files: strict FS or file copy).
+func (c *c06) crashNode(n string, power bool) {
+	old := c.w.Node(n)
+	oldDB := c.dbDir(n)
+	c.dirSeq[n]++
+	if c.strict {
+		// the engine's data dir keeps its path across incarnations; the file system object
+		// behind it is replaced by a copy of the old one's synced (power loss) or visible
+		// (process kill) state, the zombie keeps the old object
+		if fs := c.fsByDir[oldDB]; fs != nil {
+			c.fsByDir[oldDB] = fs.SimClone(power)
+		}
+	}
+	old.Crash(c.dir(n), power, []int{512, 4096}[int(H(c.r.Seed, "pg", n, c.dirSeq[n])%2)])
+	delete(c.attached, n)
+	if power {
+		c.r.Count("crash_powerloss", 1)
+	} else {
+		c.r.Count("crash_kill", 1)
+	}
+}
+
+// checkAfterRestart: C07's core oracle, evaluated on a freshly restarted node before any
+// replay: its DB equals the fold of log entries 0..c (c = commit offset stored in the DB) and
+// c does not exceed what its log holds.
+func (c *c06) checkAfterRestart(n string) {
+	// a node opens a shard when the coordinator first talks to it: fence it in the current
+	// term (no entry is replayed by that), then look at what it recovered from disk
+	if _, err := c.newTerm(n); err != nil {
+		c.wl.fail("restart-error", "NewTerm(%d) on restarted node %s failed: %v", c.wl.c.term, n, err)
+		return
+	}
+	if c.prop != "C07" {
+		old := c.wl.failClassPrefix
+		c.wl.failClassPrefix = "C07:"
+		defer func() { c.wl.failClassPrefix = old }()
+	}
+	sn := c.w.Node(n)
+	if sn == nil || sn.Server == nil {
+		return
+	}
+	v, ok := sn.Server.SimShardView(0)
+	for i := 0; i < 5 && (!ok || v.DB == nil || v.Wal == nil); i++ {
+		// the controller is being replaced (the leader's cursor reconnected at the same moment)
+		time.Sleep(50 * time.Millisecond)
+		if _, err := c.newTerm(n); err != nil {
+			break
+		}
+		v, ok = sn.Server.SimShardView(0)
+	}
+	if !ok || v.DB == nil || v.Wal == nil {
+		c.r.Count("restart_shard_not_open", 1)
+		return
+	}
+	dump, err := dumpDB(v.DB)
+	if err != nil {
+		c.wl.fail("dump-error", "after restart of %s: %v", n, err)
+		return
+	}
+	off := dumpCommitOffset(dump)
+	var last int64 = -1
+	if v.Wal != nil {
+		last = v.Wal.LastOffset()
+	}
+	if off > last {
+		c.wl.fail("commit-offset-ahead-of-log", "after crash and restart, %s's DB stores commit offset %d but its log ends at offset %d (first %d; wal files: %s)", n, off, last, v.Wal.FirstOffset(), listFiles(filepath.Join(sn.Dir, "wal")))
+		return
+	}
+	// the entries: the committed log known to the harness, continued by the node's own log
+	m := newRefDB(0)
+	next := int64(0)
+	for _, e := range c.canon {
+		if e.Offset > off {
+			break
+		}
+		ws, _ := decodeEntry(e)
+		for _, wr := range ws {
+			m.Apply(wr, e.Offset, e.Timestamp)
+		}
+		next = e.Offset + 1
+	}
+	if next <= off {
+		ents, err := readLog(v.Wal, next-1)
+		if err != nil {
+			c.wl.fail("log-error", "after restart of %s: %v", n, err)
+			return
+		}
+		for _, e := range ents {
+			if e.Offset > off {
+				break
+			}
+			if e.Offset != next {
+				c.wl.fail("commit-offset-ahead-of-log", "after crash and restart, %s's DB stores commit offset %d but its log has no entry %d", n, off, next)
+				return
+			}
+			ws, _ := decodeEntry(e)
+			for _, wr := range ws {
+				m.Apply(wr, e.Offset, e.Timestamp)
+			}
+			next++
+		}
+		if next <= off {
+			c.wl.fail("commit-offset-ahead-of-log", "after crash and restart, %s's DB stores commit offset %d but its log ends before entry %d", n, off, next)
+			return
+		}
+	}
+	if msg := m.compareDump(dump, true); msg != "" {
+		c.wl.fail("db-not-fold-of-log-prefix", "after crash and restart, %s's DB (stored commit offset %d, log ends at %d) is not the result of applying entries 0..%d once each, in order: %s (history: %s)", n, off, last, off, msg, lastN(c.wl.prog, 10))
+		return
+	}
+	c.r.Count("restart_states_checked", 1)
+	if off >= 0 {
+		c.r.Count("restart_states_nonempty", 1)
+	}
+	if off < last {
+		c.r.Count("restart_with_entries_to_replay", 1)
+	}
+}
+
+// flushSome asks the engine of a random live node to flush its memtable in the background
+// (Pebble may do so at any time; short runs would otherwise never reach a flush).
+func (c *c06) flushSome(g *Rng) {
+	var live []string
+	for _, n := range c.names {
+		if c.live(n) {
+			live = append(live, n)
+		}
+	}
+	if len(live) == 0 {
+		return
+	}
+	n := live[g.Intn(len(live))]
+	sn := c.w.Node(n)
+	v, ok := sn.Server.SimShardView(0)
+	if !ok || v.DB == nil {
+		return
+	}
+	if p := kv.SimPebble(kv.SimKVOf(v.DB)); p != nil {
+		sn.EP.Go(func() {
+			defer func() { _ = recover() }() // the engine panics when it has been closed meanwhile
+			_, _ = p.AsyncFlush()
+		})
+		c.r.Count("engine_flushes_injected", 1)
+	}
+}
+
+// crashingBurst sends k requests concurrently and crashes a node (leader or follower) at a
+// seeded instant while they are in flight; failed requests have an unknown outcome, the log
+// decides.  Returns after the node has been restarted and checked.
+func (c *c06) crashingBurst(g *Rng, k int) bool {
+	victim := c.leader
+	if g.Chance(50) {
+		var f []string
+		for _, n := range c.names {
+			if n != c.leader && c.live(n) {
+				f = append(f, n)
+			}
+		}
+		if len(f) > 0 {
+			victim = f[g.Intn(len(f))]
+		}
+	}
+	power := g.Chance(60)
+	delay := time.Duration(g.Range(0, 12000)) * time.Microsecond
+	crashed := make(chan struct{})
+	c.w.Net.After(delay, fmt.Sprintf("c07crash/%s/%d", victim, c.dirSeq[victim]), func() {
+		defer close(crashed)
+		if g.Chance(50) {
+			c.flushSome(g)
+		}
+		c.crashNode(victim, power)
+	})
+	if g.Chance(70) {
+		c.w.Net.After(time.Duration(g.Range(0, int(delay/time.Microsecond)))*time.Microsecond, fmt.Sprintf("c07flush/%d", c.dirSeq[victim]), func() { c.flushSome(g) })
+	}
+	c.wl.burstInReq = map[string]int{}
+	reqs := make([]*proto.WriteRequest, k)
+	for i := range reqs {
+		reqs[i] = c.wl.genRequest(g)
+	}
+	c.wl.burstInReq = nil
+	var wg sync.WaitGroup
+	var failed atomic.Int64
+	for i := 0; i < k; i++ {
+		i := i
+		wg.Add(1)
+		c.wl.c.ctl.Go(func() {
+			defer wg.Done()
+			time.Sleep(time.Duration(H(c.r.Seed, "stagger", i, c.dirSeq[victim])%4000) * time.Microsecond)
+			ctx, cancel := context.WithTimeout(context.Background(), 20*time.Second)
+			defer cancel()
+			reqs[i].Shard = &c.wl.c.shard
+			if _, err := c.wl.c.client().Write(ctx, reqs[i]); err != nil {
+				failed.Add(1)
+			}
+		})
+	}
+	wg.Wait()
+	<-crashed
+	c.wl.prog = append(c.wl.prog, fmt.Sprintf("burst(%d)+crash %s power=%v after %v (%d failed)", k, victim, power, delay, failed.Load()))
+	c.r.Count("crashing_bursts", 1)
+	c.r.Count("burst_writes_unknown", failed.Load())
+	if !c.start(victim) {
+		return false
+	}
+	c.checkAfterRestart(victim)
+	if c.r.Failed() {
+		return false
+	}
+	if victim != c.leader && g.Chance(50) {
+		return c.attach(victim) && c.settleAndFold()
+	}
+	return c.elect(g) && c.settleAndFold()
+}
+
+func listFiles(dir string) string {
+	var out []string
+	_ = filepath.Walk(dir, func(p string, info os.FileInfo, err error) error {
+		if err == nil && !info.IsDir() {
+			rel, _ := filepath.Rel(dir, p)
+			out = append(out, fmt.Sprintf("%s(%d)", rel, info.Size()))
+		}
+		return nil
+	})
+	return strings.Join(out, " ")
+}
+
 func lastN(s []string, n int) string {
 	if len(s) > n {
 		s = s[len(s)-n:]
@@ -322,16 +584,66 @@ func (c *c06) burst(g *Rng, k int) bool {
 	return c.fold()
 }
 
-func runC06(r *Run) {
-	rg := NewRng(r.Seed, "c06-knobs")
+func runC06(r *Run) { runReplicas(r, "C06") }
+
+// C07 runs the same three-node harness with a strict engine file system (unsynced Pebble files
+// are lost at power loss), injected engine flushes, crashes placed inside concurrent bursts and
+// the restart oracle evaluated before any replay.
+func runC07(r *Run) { runReplicas(r, "C07") }
+
+func runReplicas(r *Run, prop string) {
+	c07 := prop == "C07"
+	rg := NewRng(r.Seed, "c06-knobs", prop)
 	chunk := []int64{97, 1000, 4096, 64 * 1024, 1 << 20}[rg.Intn(5)]
 	oldChunk := kv.MaxSnapshotChunkSize
 	kv.MaxSnapshotChunkSize = chunk
 	defer func() { kv.MaxSnapshotChunkSize = oldChunk }()
-	wl := newW2(r, "c06", w2Opts{sessions: true, indexes: true, sequences: true, bigRanges: true})
+	c := &c06{r: r, names: []string{"n1", "n2", "n3"}, dirSeq: map[string]int{}, started: map[string]bool{"n1": true}, attached: map[string]bool{},
+		prop: prop, strict: c07, fsByDir: map[string]*vfs.MemFS{}}
+	if c.strict {
+		c.cfgMod = func(cfg *server.Config) {
+			cfg.DataDir = filepath.Join(filepath.Dir(filepath.Dir(cfg.WalDir)), nodeOfAddr(cfg.PublicServiceAddr)+"-db")
+		}
+	}
+	wl := newW2(r, strings.ToLower(prop), w2Opts{sessions: true, indexes: true, sequences: true, bigRanges: true, cfgMod: c.cfgMod, preStart: func(w *World) {
+		if c.strict {
+			kv.SimFS = func(dataDir string) vfs.FS {
+				fs := c.fsByDir[dataDir]
+				if fs == nil {
+					fs = vfs.NewStrictMem()
+					c.fsByDir[dataDir] = fs
+				}
+				return fs
+			}
+		}
+	}})
 	defer wl.w.Close()
 	g := wl.g
-	c := &c06{wl: wl, r: r, w: wl.w, names: []string{"n1", "n2", "n3"}, dirSeq: map[string]int{}, started: map[string]bool{"n1": true}, attached: map[string]bool{}}
+	c.wl, c.w = wl, wl.w
+	if c07 {
+		// right after a batch commit: sometimes the engine flushes its memtable (it may at any
+		// time), sometimes the goroutine is held for a moment -- a quiescent point at which a
+		// scheduled crash can land between two commits
+		flushPct, holdPct := g.Range(0, 8), g.Range(0, 20)
+		r.Knobs["after_commit"] = fmt.Sprintf("flush %d%% hold %d%%", flushPct, holdPct)
+		kv.SimAfterCommit = func(p *pebble.DB) {
+			if runtime.SimTag() == 0 {
+				return
+			}
+			if int(rand.Uint64()%100) < flushPct {
+				func() {
+					defer func() { _ = recover() }()
+					_ = p.Flush()
+				}()
+				r.Count("flush_right_after_commit", 1)
+			}
+			if int(rand.Uint64()%100) < holdPct {
+				time.Sleep(time.Duration(rand.Uint64()%2000+1) * time.Microsecond)
+				r.Count("hold_right_after_commit", 1)
+			}
+		}
+		defer func() { kv.SimAfterCommit = nil }()
+	}
 	if g.Chance(60) {
 		wl.w.SitePct = g.Range(10, 60)
 		wl.w.YieldPct = g.Range(5, 40)
@@ -344,7 +656,7 @@ func runC06(r *Run) {
 	}
 	r.Knobs["plan_size"] = nops
 	r.Sample = &wl.prog
-	lateThird := g.Chance(60) // n3 joins later, empty: snapshot route
+	lateThird := g.Chance(60) && !c07 // n3 joins later, empty: snapshot route (the snapshot code reads engine files through the OS, not through the strict FS)
 	ok := wl.w.RunScript(wl.c.ctl, 6*time.Hour, func() {
 		wl.c.onFold = func(e *proto.LogEntry) { c.canon = append(c.canon, e) }
 		if !c.start("n2") {
@@ -362,6 +674,39 @@ func runC06(r *Run) {
 			}
 			gi := NewRng(r.Seed, "c06op", i)
 			k := gi.Intn(100)
+			if c07 {
+				// remap the mix: more crashes (also inside bursts) and engine flushes, no empty followers
+				switch {
+				case k < 22:
+					if !c.crashingBurst(gi, gi.Range(2, 7)) {
+						return
+					}
+					continue
+				case k < 30:
+					c.flushSome(gi)
+					wl.prog = append(wl.prog, "flush")
+					continue
+				case k < 40:
+					k = 35 // follower crash between operations
+				case k < 46:
+					k = 43 // leader crash between operations
+				case k < 52:
+					k = 20 // leader change
+				case k < 60:
+					k = 10 // burst
+				case k < 64:
+					k = 55 // checkpoint
+				case k < 70:
+					k = 3 // session
+				case k < 73:
+					k = 7
+				default:
+					k = 99 // single write
+					if gi.Chance(15) {
+						c.flushSome(gi)
+					}
+				}
+			}
 			followers := func() []string {
 				var f []string
 				for _, n := range c.names {
@@ -410,12 +755,13 @@ func runC06(r *Run) {
 			case k < 41: // follower crash: unflushed engine state is lost, the log is replayed
 				if f := followers(); len(f) == 2 {
 					n := f[gi.Intn(2)]
-					old := c.w.Node(n)
-					c.dirSeq[n]++
-					old.Crash(c.dir(n), gi.Chance(50), 4096)
-					delete(c.attached, n)
+					c.crashNode(n, gi.Chance(50))
 					wl.prog = append(wl.prog, "crash "+n)
-					if !c.start(n) || !c.attach(n) {
+					if !c.start(n) {
+						return
+					}
+					c.checkAfterRestart(n)
+					if r.Failed() || !c.attach(n) {
 						return
 					}
 					r.Count("follower_crashes", 1)
@@ -423,11 +769,13 @@ func runC06(r *Run) {
 			case k < 46: // leader crash + election among all three
 				if len(followers()) == 2 {
 					n := c.leader
-					old := c.w.Node(n)
-					c.dirSeq[n]++
-					old.Crash(c.dir(n), gi.Chance(50), 4096)
+					c.crashNode(n, gi.Chance(50))
 					wl.prog = append(wl.prog, "crash-leader "+n)
-					if !c.start(n) || !c.elect(gi) {
+					if !c.start(n) {
+						return
+					}
+					c.checkAfterRestart(n)
+					if r.Failed() || !c.elect(gi) {
 						return
 					}
 					r.Count("leader_crashes", 1)
@@ -489,4 +837,7 @@ func runC06(r *Run) {
 	}
 }
 
-func init() { registry["C06"] = runC06 }
+func init() {
+	registry["C06"] = runC06
+	registry["C07"] = runC07
+}
